@@ -1,5 +1,6 @@
 // C10: scalar matchers and combinators - driver of the generated term chunks plus the string / regex / nullptr families.
 #include "c10_scalar.hpp"
+#include <limits>
 #include <string>
 
 namespace c10 { en::Recorder R; }
@@ -47,6 +48,20 @@ int main(int argc, char** argv) {
     R.check("none_of(sub) with the same sub-matcher variable (\"" + v + "\")", in, param_matches(outer2, std::ref(x)), x != v, "str");
     R.check("sub itself after being nested twice (\"" + v + "\")", in, param_matches(sub, std::ref(x)), x == v, "str");
   }
+  // ---- doubles incl. NaN (a partially ordered domain: x <= v is not !(v < x)) ----
+  {
+    const double nan = std::numeric_limits<double>::quiet_NaN();
+    const std::vector<double> ds = {nan, -1.0, 0.0, 1.5};
+    auto nm = [](double d) { return d != d ? std::string("NaN") : std::to_string(d); };
+    for (double v : ds) for (double x : ds) {
+      std::string in = "double " + nm(x);
+      R.check("eq(" + nm(v) + ")", in, param_matches(eq(v), std::ref(x)), x == v, "double"); R.check("ne(" + nm(v) + ")", in, param_matches(ne(v), std::ref(x)), x != v, "double");
+      R.check("lt(" + nm(v) + ")", in, param_matches(lt(v), std::ref(x)), x < v, "double"); R.check("le(" + nm(v) + ")", in, param_matches(le(v), std::ref(x)), x <= v, "double");
+      R.check("gt(" + nm(v) + ")", in, param_matches(gt(v), std::ref(x)), x > v, "double"); R.check("ge(" + nm(v) + ")", in, param_matches(ge(v), std::ref(x)), x >= v, "double");
+      R.check("le<double>(" + nm(v) + ")", in, param_matches(le<double>(v), std::ref(x)), x <= v, "double"); R.check("!ge(" + nm(v) + ")", in, param_matches(!ge(v), std::ref(x)), !(x >= v), "double");
+      R.check("all_of(ge(" + nm(v) + "),le(" + nm(v) + "))", in, param_matches(all_of(ge(v), le(v)), std::ref(x)), x >= v && x <= v, "double");
+    }
+  }
   // ---- re(s, flags): found in a non-null string ----
   struct Pat { const char* s; bool icase; };
   const Pat pats[] = {{"^$", false}, {"a*", false}, {"", false}, {"^a", false}, {"b$", false}, {"ab", false}, {"B", true}, {"^[ab]+$", false}, {"a.b", false}};
@@ -66,6 +81,17 @@ int main(int argc, char** argv) {
       R.check("re<std::string>(\"" + std::string(p.s) + "\")", "std::string \"" + sx + "\"", param_matches(p.icase ? re<std::string>(p.s, std::regex_constants::icase) : re<std::string>(p.s), std::ref(sx)), expect, "re");
       const char* px = x; const char** ppx = &px;
       R.check("*" + t, std::string("const char** -> \"") + x + "\"", param_matches(*mk(), std::ref(ppx)), expect, "re");
+    }
+  }
+  // ---- std::string arguments with an embedded NUL: the whole string is searched ----
+  {
+    const std::vector<std::string> subj = {std::string("a\0b", 3), std::string("\0b", 2), std::string("ab\0", 3), std::string("\0", 1)};
+    const char* ps[] = {"b", "^a$", "a.b", "^$", "b$", "^.$"};
+    for (const char* p : ps) for (auto& x : subj) {
+      std::regex rx(p); bool expect = std::regex_search(x.begin(), x.end(), rx);
+      std::string shown; for (char c : x) shown += c ? std::string(1, c) : std::string("\\0");
+      R.check(std::string("re(\"") + p + "\")", "std::string with NUL \"" + shown + "\"", param_matches(re(p), std::ref(x)), expect, "re");
+      R.check(std::string("!re(\"") + p + "\")", "std::string with NUL \"" + shown + "\"", param_matches(!re(p), std::ref(x)), !expect, "re");
     }
   }
   // ---- nullptr comparisons ----
